@@ -26,6 +26,7 @@ type IdPKnobs struct {
 	AudArray           bool   `json:"aud_array"`            // aud as array (with a second audience)
 	TokenType          string `json:"token_type"`           // capitalisation of Bearer
 	Extra              bool   `json:"extra"`                // extra response members
+	Big                bool   `json:"big,omitempty"`        // large answers: an ID token with some hundred group claims, a long extra member
 	RefreshNonce       string `json:"refresh_nonce"`        // omit | echo | empty
 	RefreshOmitID      bool   `json:"refresh_omit_id"`      // refresh answers omit id_token
 	RefreshOmitAccess  bool   `json:"refresh_omit_access"`  // refresh answers omit access_token
@@ -139,9 +140,13 @@ type IdP struct {
 	// OnArrival, if set, is called when a token request reaches the provider, before any simulated latency: what
 	// the request had to carry is decided by the state of the world at that instant (C19: the Secret's value as of
 	// the last completed reconcile), not by the state when the provider gets round to processing it.
-	OnArrival   func(tr *TokenReq)
-	RedirectURI string
-	EndSession  string
+	OnArrival func(tr *TokenReq)
+	// LeanDiscFail: in race builds (no fault bookkeeping, which would synchronise the tasks) the n-th discovery
+	// requests listed here are answered 500. Plain counter, touched only by norace code.
+	LeanDiscFail []int
+	leanDiscN    int
+	RedirectURI  string
+	EndSession   string
 
 	w  *World
 	mu sync.Mutex
@@ -232,6 +237,10 @@ func (p *IdP) Handler() http.Handler {
 		p.mu.Lock()
 		p.DiscHits++
 		p.mu.Unlock()
+		if p.leanDiscFails() {
+			http.Error(w, "boom", 500)
+			return
+		}
 		switch f := p.w.faultAt("idp.disc"); f {
 		case "":
 		case "ctx-cancel":
@@ -285,6 +294,20 @@ func (p *IdP) Handler() http.Handler {
 		_ = json.NewEncoder(w).Encode(doc)
 	})
 	return mux
+}
+
+//go:norace
+func (p *IdP) leanDiscFails() bool {
+	if len(p.LeanDiscFail) == 0 {
+		return false
+	}
+	p.leanDiscN++
+	for _, n := range p.LeanDiscFail {
+		if n == p.leanDiscN {
+			return true
+		}
+	}
+	return false
 }
 
 func orStr(a, b string) string {
@@ -761,6 +784,13 @@ func (p *IdP) issue(ch *chainRec, login bool) map[string]any {
 		} else {
 			claims["aud"] = p.ClientID
 		}
+		if k.Big {
+			groups := make([]string, 300)
+			for g := range groups {
+				groups[g] = fmt.Sprintf("group-%03d-of-the-directory", g)
+			}
+			claims["groups"] = groups
+		}
 		if login {
 			claims["nonce"] = ch.Nonce
 		} else {
@@ -786,6 +816,9 @@ func (p *IdP) issue(ch *chainRec, login bool) map[string]any {
 		}
 		ans["id_token"] = tok
 		p.w.addSecret("id-token", tok)
+	}
+	if k.Big {
+		ans["x_permissions"] = strings.Repeat("perm:read:resource/0123456789 ", 200)
 	}
 	if k.Extra {
 		ans["scope"] = "openid profile"
